@@ -14,6 +14,7 @@ PROFILES = [
     (3, dict(_base)),
     (2, dict(_base, name="threekinds", nkinds=3)),
     (2, dict(_base, name="sync", p_sync=0.2)),
+    (1, dict(_base, name="sync-keep", p_sync=0.3, p_keep=0.8)),
     (1, dict(_base, name="ties", p_prio=0.0, nkeys=2)),
 ]
 
